@@ -394,8 +394,12 @@ func specGateOK(e int, status uint8, mbr, gbr uint64) bool {
 //@   ensures C03.qer.sess.add.key: glen("bess") == old[int](glen("bess"))+1 ==> specBessCmd(gentry("bess", old[int](glen("bess"))), SessQerLookup, "add") && live(specSliceCmd(gentry("bess", old[int](glen("bess"))))) && specSessQerKey(specSliceCmd(gentry("bess", old[int](glen("bess")))).Fields, srcIface, qer)
 //@   ensures C03.qer.sess.add.values: glen("bess") == old[int](glen("bess"))+1 ==> specQosArg(specSliceCmd(gentry("bess", old[int](glen("bess")))), gate, cir, pir, cbs, pbs, ebs)
 
+// burst [bytes] >= kbps*125 [B/s] * ms/1000 [s]  <=>  burst*8 >= kbps*ms over the integers (or the
+// result is saturated); and it is the least such value.
 //@ func calcBurstSizeFromRate(kbps uint64, ms uint64) (r uint64)
-//@   ensures C09.burst.floor@thorough: kbps < 1<<40 && ms < 1<<32 ==> mulGE(r, 1000, kbps, ms, 125)
+//@   mode bv
+//@   ensures C09.burst.atleast: mulGE(r, 8, kbps, ms, 1) || r == 1<<64-1
+//@   ensures C09.burst.least: r != 0 ==> !mulGE(r-1, 8, kbps, ms, 1)
 
 //@ func (b *bess) addQER#1() free(b *bess, qer qer)
 //@   lemmas bvarith
@@ -407,12 +411,12 @@ func specGateOK(e int, status uint8, mbr, gbr uint64) bool {
 //@   ensures C09.bess.dl.key: qer.qosLevel <= 1 ==> gfield("qer.level", gentry("qer", old[int](glen("qer"))+1)) == uint64(qer.qosLevel) && gfield("qer.iface", gentry("qer", old[int](glen("qer"))+1)) == core && gfield("qer.qerid", gentry("qer", old[int](glen("qer"))+1)) == uint64(qer.qerID) && gfield("qer.fseid", gentry("qer", old[int](glen("qer"))+1)) == qer.fseID && gfield("qer.qfi", gentry("qer", old[int](glen("qer"))+1)) == uint64(qer.qfi)
 //@   ensures C09.bess.ul.gate: qer.qosLevel <= 1 ==> specGateOK(gentry("qer", old[int](glen("qer"))), qer.ulStatus, qer.ulMbr, qer.ulGbr)
 //@   ensures C09.bess.dl.gate: qer.qosLevel <= 1 ==> specGateOK(gentry("qer", old[int](glen("qer"))+1), qer.dlStatus, qer.dlMbr, qer.dlGbr)
-//@   ensures C09.bess.ul.cbs: qer.qosLevel <= 1 ==> gfield("qer.cbs", gentry("qer", old[int](glen("qer")))) >= uint64(specQosCfg(b, qer.qfi).cbs) && (qer.ulGbr < 1<<40 ==> mulGE(gfield("qer.cbs", gentry("qer", old[int](glen("qer")))), 1000, qer.ulGbr, uint64(specQosCfg(b, qer.qfi).burstDurationMs), 125))
-//@   ensures C09.bess.ul.pbs: qer.qosLevel <= 1 ==> gfield("qer.pbs", gentry("qer", old[int](glen("qer")))) >= uint64(specQosCfg(b, qer.qfi).pbs) && (qer.ulMbr < 1<<40 ==> mulGE(gfield("qer.pbs", gentry("qer", old[int](glen("qer")))), 1000, qer.ulMbr, uint64(specQosCfg(b, qer.qfi).burstDurationMs), 125))
-//@   ensures C09.bess.ul.ebs: qer.qosLevel <= 1 ==> gfield("qer.ebs", gentry("qer", old[int](glen("qer")))) >= uint64(specQosCfg(b, qer.qfi).ebs) && (qer.ulMbr < 1<<40 ==> mulGE(gfield("qer.ebs", gentry("qer", old[int](glen("qer")))), 1000, qer.ulMbr, uint64(specQosCfg(b, qer.qfi).burstDurationMs), 125))
-//@   ensures C09.bess.dl.cbs: qer.qosLevel <= 1 ==> gfield("qer.cbs", gentry("qer", old[int](glen("qer"))+1)) >= uint64(specQosCfg(b, qer.qfi).cbs) && (qer.dlGbr < 1<<40 ==> mulGE(gfield("qer.cbs", gentry("qer", old[int](glen("qer"))+1)), 1000, qer.dlGbr, uint64(specQosCfg(b, qer.qfi).burstDurationMs), 125))
-//@   ensures C09.bess.dl.pbs: qer.qosLevel <= 1 ==> gfield("qer.pbs", gentry("qer", old[int](glen("qer"))+1)) >= uint64(specQosCfg(b, qer.qfi).pbs) && (qer.dlMbr < 1<<40 ==> mulGE(gfield("qer.pbs", gentry("qer", old[int](glen("qer"))+1)), 1000, qer.dlMbr, uint64(specQosCfg(b, qer.qfi).burstDurationMs), 125))
-//@   ensures C09.bess.dl.ebs: qer.qosLevel <= 1 ==> gfield("qer.ebs", gentry("qer", old[int](glen("qer"))+1)) >= uint64(specQosCfg(b, qer.qfi).ebs) && (qer.dlMbr < 1<<40 ==> mulGE(gfield("qer.ebs", gentry("qer", old[int](glen("qer"))+1)), 1000, qer.dlMbr, uint64(specQosCfg(b, qer.qfi).burstDurationMs), 125))
+//@   ensures C09.bess.ul.cbs: qer.qosLevel <= 1 ==> gfield("qer.cbs", gentry("qer", old[int](glen("qer")))) >= uint64(specQosCfg(b, qer.qfi).cbs) && (mulGE(gfield("qer.cbs", gentry("qer", old[int](glen("qer")))), 8, qer.ulGbr, uint64(specQosCfg(b, qer.qfi).burstDurationMs), 1) || gfield("qer.cbs", gentry("qer", old[int](glen("qer")))) == 1<<64-1)
+//@   ensures C09.bess.ul.pbs: qer.qosLevel <= 1 ==> gfield("qer.pbs", gentry("qer", old[int](glen("qer")))) >= uint64(specQosCfg(b, qer.qfi).pbs) && (mulGE(gfield("qer.pbs", gentry("qer", old[int](glen("qer")))), 8, qer.ulMbr, uint64(specQosCfg(b, qer.qfi).burstDurationMs), 1) || gfield("qer.pbs", gentry("qer", old[int](glen("qer")))) == 1<<64-1)
+//@   ensures C09.bess.ul.ebs: qer.qosLevel <= 1 ==> gfield("qer.ebs", gentry("qer", old[int](glen("qer")))) >= uint64(specQosCfg(b, qer.qfi).ebs) && (mulGE(gfield("qer.ebs", gentry("qer", old[int](glen("qer")))), 8, qer.ulMbr, uint64(specQosCfg(b, qer.qfi).burstDurationMs), 1) || gfield("qer.ebs", gentry("qer", old[int](glen("qer")))) == 1<<64-1)
+//@   ensures C09.bess.dl.cbs: qer.qosLevel <= 1 ==> gfield("qer.cbs", gentry("qer", old[int](glen("qer"))+1)) >= uint64(specQosCfg(b, qer.qfi).cbs) && (mulGE(gfield("qer.cbs", gentry("qer", old[int](glen("qer"))+1)), 8, qer.dlGbr, uint64(specQosCfg(b, qer.qfi).burstDurationMs), 1) || gfield("qer.cbs", gentry("qer", old[int](glen("qer"))+1)) == 1<<64-1)
+//@   ensures C09.bess.dl.pbs: qer.qosLevel <= 1 ==> gfield("qer.pbs", gentry("qer", old[int](glen("qer"))+1)) >= uint64(specQosCfg(b, qer.qfi).pbs) && (mulGE(gfield("qer.pbs", gentry("qer", old[int](glen("qer"))+1)), 8, qer.dlMbr, uint64(specQosCfg(b, qer.qfi).burstDurationMs), 1) || gfield("qer.pbs", gentry("qer", old[int](glen("qer"))+1)) == 1<<64-1)
+//@   ensures C09.bess.dl.ebs: qer.qosLevel <= 1 ==> gfield("qer.ebs", gentry("qer", old[int](glen("qer"))+1)) >= uint64(specQosCfg(b, qer.qfi).ebs) && (mulGE(gfield("qer.ebs", gentry("qer", old[int](glen("qer"))+1)), 8, qer.dlMbr, uint64(specQosCfg(b, qer.qfi).burstDurationMs), 1) || gfield("qer.ebs", gentry("qer", old[int](glen("qer"))+1)) == 1<<64-1)
 
 // ---------------------------------------------------------------------------
 // C09: session-wide QER selection (session_qer.go)
